@@ -18,6 +18,8 @@ VERUS = shutil.which('verus') or '/usr/local/bin/verus'
 # message -> obligation kind.  Anything not listed here that is an error is NOT a verdict (exit 2).
 VERIF_CLASSES = [
     (r'^postcondition not satisfied', 'ensures'),
+    (r'^unable to prove post-condition of closure', 'ensures'),
+    (r'^unable to prove pre-condition of closure', 'requires'),
     (r'^precondition not satisfied', 'requires'),
     (r'^invariant not satisfied', 'invariant'),
     (r'^loop invariant not satisfied', 'invariant'),
